@@ -222,6 +222,15 @@ def norm(e):
 def _norm(e):
     c = e.cls
     if c in ("ImplicitCastExpr", "CStyleCastExpr"):
+        if c == "ImplicitCastExpr" and e.op == "LValueToRValue":
+            # a read of a NEW local (one the pinned tree's version of the function does not have) that holds, on every path
+            # to this read, the value of a side-effect-free expression whose operands have not changed since: the read is that
+            # expression (a temporary introduced for a repeated sub-expression does not change what a rule sees)
+            k = e.kid(0)
+            if k is not None and k.cls == "DeclRefExpr" and k.decl and k.decl.get("kind") == "local":
+                t = e.func.avail_value(e, k.decl.get("id"))
+                if t is not None:
+                    return t
         return norm(e.kid(0))
     if e.val is not None and c not in ("DeclRefExpr",) or (c == "DeclRefExpr" and e.decl and e.decl.get("kind") == "enumconst"):
         if e.val is not None:
@@ -431,6 +440,20 @@ def decl_signature(f):
     return sig
 
 
+_LOCALREF = None
+
+
+def _local_reference():
+    global _LOCALREF
+    if _LOCALREF is None:
+        try:
+            with open(os.path.join(os.path.dirname(os.path.abspath(__file__)), "localnames.json")) as fh:
+                _LOCALREF = json.load(fh)
+        except (OSError, ValueError):
+            _LOCALREF = {}
+    return _LOCALREF
+
+
 class Func:
     def __init__(self, unit, d, repo):
         self.unit = unit
@@ -463,9 +486,146 @@ class Func:
         self._dom = None
         self._pdom = None
         self._rpo = None
+        # terms built while the function was being put together did not have the copy propagation of new locals
+        for b in self.blocks.values():
+            for x in b.elems:
+                x._norm = None
+        self._ready = True
 
     def elem(self, ref):
         return self.blocks[ref[0]].elems[ref[1]]
+
+    # -- new locals: copy propagation ------------------------------------------------------------------------------------
+    def new_locals(self):
+        """ids of the locals of this function whose names the pinned tree's version of the function does not have
+        (sa/localnames.json); empty when the function itself is not in the reference."""
+        if getattr(self, "_new_locals", None) is not None:
+            return self._new_locals
+        out = set()
+        ref = _local_reference().get(self.file, {}).get(self.symbol)
+        if ref is None:
+            ref = _local_reference().get(self.file, {}).get(self.name)
+        if ref is not None and not os.environ.get("VERIF_NO_COPYPROP"):
+            ref = set(ref)
+            for b in self.blocks.values():
+                for e in b.elems:
+                    if e.cls == "DeclStmt":
+                        for d in e.decls or []:
+                            if isinstance(d, dict) and d.get("kind") == "local" and not d.get("static") and d.get("name") not in ref and not str(d.get("name", "")).startswith("$"):
+                                out.add(d["id"])
+        self._new_locals = out
+        return out
+
+    def avail_value(self, e, vid):
+        """Term the new local `vid` is known to equal where element e reads it, or None."""
+        nl = self.new_locals()
+        if vid not in nl or getattr(self, "_avail_busy", False) or not getattr(self, "_ready", False):
+            return None
+        if getattr(self, "_avail", None) is None:
+            self._avail_busy = True
+            try:
+                self._avail = self._avail_solve(nl)
+            except Exception:
+                self._avail = False
+            finally:
+                self._avail_busy = False
+                # terms computed while the analysis ran were built without it: forget them
+                for b in self.blocks.values():
+                    for x in b.elems:
+                        x._norm = None
+        if not self._avail:
+            return None
+        st = self._avail.get(e.pos)
+        if not st:
+            return None
+        for v, t in st:
+            if v == vid:
+                return t
+        return None
+
+    def _avail_solve(self, nl):
+        """{element position: frozenset of (new local id, term)} just before each read of a new local: the available
+        definitions (forward, must): `v = t` with t free of calls and assignments makes (v, t) available; a write to v, to a
+        variable t mentions, any store through memory or non-pure call when t reads memory, kills it."""
+        from .dataflow import Solver
+        PURE = {"strlen", "__builtin_expect", "__builtin_constant_p"}
+
+        def pure(t):
+            for x in subterms(t):
+                if isinstance(x, tuple) and x:
+                    if x[0] == "call" and x[1] not in PURE:
+                        return False
+                    if isinstance(x[0], str) and (x[0] in ("=", "upost++", "upost--", "upre++", "upre--", "?") or (x[0].endswith("=") and x[0] not in ("==", "!=", "<=", ">="))):
+                        return False
+            return True
+
+        def reads_memory(t):
+            return any(isinstance(x, tuple) and x and x[0] in ("*", ".", "[]") for x in subterms(t))
+
+        def mentions(t, vid):
+            return any(isinstance(x, tuple) and len(x) > 2 and x[0] == "v" and x[2] == vid for x in subterms(t))
+
+        def kill_var(st, vid):
+            return frozenset((v, t) for v, t in st if v != vid and not mentions(t, vid))
+
+        def kill_mem(st):
+            return frozenset((v, t) for v, t in st if not reads_memory(t))
+
+        def tr(st, e):
+            if e.cls == "DeclStmt":
+                for d in e.decls or []:
+                    if isinstance(d, dict) and d.get("kind") == "local" and "id" in d:
+                        st = kill_var(st, d["id"])
+                        if d["id"] in nl and d.get("init"):
+                            t = norm(self.elem(d["init"]))
+                            if pure(t) and not mentions(t, d["id"]):
+                                st = st | frozenset([(d["id"], t)])
+                return st
+            if e.is_assign or e.is_incdec:
+                L = norm(e.kid(0))
+                if L[0] == "v" and len(L) > 2:
+                    st = kill_var(st, L[2])
+                    if e.is_assign and e.op == "=" and L[2] in nl and e.kid(1) is not None:
+                        t = norm(e.kid(1))
+                        if pure(t) and not mentions(t, L[2]):
+                            st = st | frozenset([(L[2], t)])
+                    return st
+                return kill_mem(st)
+            if e.cls == "CallExpr":
+                if e.callee in PURE:
+                    return st
+                st = kill_mem(st)
+                for a in e.args:
+                    if a is not None:
+                        n = norm(a)
+                        if n[0] == "&":
+                            r = root_var(n[1])
+                            if r is not None and len(r) > 2:
+                                st = kill_var(st, r[2])
+                return st
+            if e.cls == "UnaryOperator" and e.op == "&":
+                n = norm(e.kid(0))
+                if n[0] == "v" and len(n) > 2:
+                    return kill_var(st, n[2])         # its address escapes: writes to it are no longer seen
+            return st
+        TOP = None
+
+        def join(a, b):
+            if a is TOP:
+                return b
+            if b is TOP:
+                return a
+            return a & b
+        sv = Solver(self, frozenset(), tr, None, join).run()
+        out = {}
+
+        def visit(e, st):
+            if e.cls == "ImplicitCastExpr" and e.op == "LValueToRValue" and st:
+                k = e.kid(0)
+                if k is not None and k.cls == "DeclRefExpr" and k.decl and k.decl.get("id") in nl:
+                    out[e.pos] = st
+        sv.visit(visit)
+        return out
 
     def single_defs(self):
         """{local variable term: norm of the one expression it is ever given} for locals with exactly one write (an initialiser or
